@@ -924,7 +924,7 @@ def rule_error_code_forwarded(repo, rep, enc, mod):
         raise AnalysisError("mlw_reorder_encode: no return statement carries the encoder's result")
 
 
-def rule_create_palette_executed(repo, rep, enc):
+def rule_create_palette_executed(repo, rep, enc, rule="C07-s"):
     """(s) create_palette is executed on the clang AST (c_exec: loops, qsort through the unit's comparator, compound assignments) for four
     weight histograms. Afterwards every weight that occurs can be written: without a palette (palsize 0) its sign-magnitude code
     2|w| + (w < 0) fits PALBITS bits - the uncompressed mode writes PALBITS bits per weight; with a palette every entry fits PALBITS bits
@@ -945,6 +945,7 @@ def rule_create_palette_executed(repo, rep, enc):
         "int8 flat with -128": hist([(w, 5) for w in range(-128, 128)]),
         "peaked around 3 with rare 255": hist([(3, 1000), (2, 500), (4, 400), (-1, 300), (255, 2), (-255, 1), (40, 3)]),
         "only five values": hist([(0, 50), (1, 40), (-1, 30), (7, 20), (-9, 10)]),
+        "magnitudes 16..80, two peaks": hist([(w, 3) for w in range(16, 81)] + [(-w, 3) for w in range(16, 81)] + [(40, 400), (-40, 300)]),
     }
     n = 0
     for name, freq in cases.items():
@@ -960,6 +961,8 @@ def rule_create_palette_executed(repo, rep, enc):
             bad = None
             if not 2 <= palbits <= 9:
                 bad = f"PALBITS {palbits} outside 2..9"
+            elif not 0 <= doff <= 31:
+                bad = f"direct offset {doff} does not fit its 5-bit header field (0..31): every directly coded weight decodes with its index shifted"
             elif palsize == 0:
                 over = [c for c in codes if c >= (1 << palbits)]
                 if over:
@@ -970,8 +973,8 @@ def rule_create_palette_executed(repo, rep, enc):
                 direct = [palsize + c - doff for c in codes if c not in lut[:palsize]]
                 if direct and (max(direct) > 511 or min(direct) < palsize):
                     bad = f"direct index range {min(direct)}..{max(direct)} outside {palsize}..511"
-            rep.check(bad is None, "C07-s", site, f"histogram '{name}', zero runs {zr}: every occurring weight is representable (palsize {palsize}, PALBITS {palbits})", bad or "")
-    if n < 8:
+            rep.check(bad is None, rule, site, f"histogram '{name}', zero runs {zr}: every occurring weight is representable (palsize {palsize}, PALBITS {palbits})", bad or "")
+    if n < 10:
         raise AnalysisError("create_palette: cases not executed")
 
 
